@@ -386,6 +386,7 @@ def run(ctx):
     if si == 0:
         bus_forwarding(ctx, rng, 40 if quick else 400)
         hostile_names_through_bus(ctx)
+        wrong_typed_header_fields(ctx)
         first_use_poisoning(ctx, rng)
         history_independence(ctx, rng)
         scaling_probe(ctx)
@@ -829,6 +830,83 @@ def bus_forwarding(ctx, rng, per_message):
                     ctx.distinct('nontrivial_cases', ('busfwd', sig, mtype, bool(got)))
 
 
+def wrong_typed_header_fields(ctx):
+    """Every header field is a (code, VARIANT) pair, so a peer can send any field with a value of any type - well-formed
+    bytes, wrong meaning.  Sent through the built-in bus to another connection: whatever the bus does with it (refuse it
+    and drop the sender, or pass something on), what reaches the addressee must be decodable by the addressee, and an
+    honest third party must still get through to it."""
+    from harness import busnet
+    net = busnet.Net()
+    victim = net.raw_client()
+    attacker = net.raw_client()
+    honest = net.raw_client()
+    values = [('y', 0), ('y', 7), ('b', False), ('u', 0), ('u', 5), ('i', -1), ('x', 0), ('d', 0.0), ('s', ''), ('s', 'zz'),
+              ('g', ''), ('g', 'i'), ('o', '/'), ('as', []), ('as', ['s']), ('ay', []), ('ay', [115]), ('(i)', [0]),
+              ('a{ss}', []), ('v', Variant('s', 's')), ('v', Variant('u', 0))]
+    names = {1: 'path', 2: 'interface', 3: 'member', 4: 'error_name', 5: 'reply_serial', 6: 'destination', 7: 'sender',
+             8: 'signature', 9: 'unix_fds'}
+    n = 0
+    for code in range(1, 10):
+        for vsig, val in values:
+            for mtype in (RM.METHOD_CALL, RM.SIGNAL, RM.METHOD_RETURN, RM.ERROR):
+                for with_body in (False, True):
+                    if attacker.server.lost or attacker.closed_by_bus:
+                        net.clients.remove(attacker)
+                        attacker = net.raw_client()
+                        ctx.count('attackers_dropped')
+                    fields = {'destination': victim.unique}
+                    if mtype in (RM.METHOD_CALL, RM.SIGNAL):
+                        fields.update(path='/a', member='M', interface='a.b')
+                    else:
+                        fields['reply_serial'] = 9
+                    if mtype == RM.ERROR:
+                        fields['error_name'] = 'a.b.E'
+                    if code == 6 and val in ('', 'zz', 's', '/', 'i'):
+                        continue       # a destination that is merely another (possibly unknown) name is ordinary traffic
+                    fields.pop(names[code], None)
+                    sig, body = ('s', ['payload']) if with_body and code != 8 else ('', [])
+                    little = n % 3 != 0
+                    raw = RM.build(mtype, 60 + n, fields, sig, body, little, extra_fields=[(code, Variant(vsig, val))])
+                    if with_body and code == 8:
+                        # a body is there although the "signature" is not one
+                        bb = R.encode('s', ['payload'], 0, little)
+                        raw = raw[:4] + struct.pack('<I' if little else '>I', len(bb)) + raw[8:] + bb
+                    n += 1
+                    attacker.send_raw(raw)
+                    ctx.count('evaluations')
+                    ctx.count('wrong_typed_header_fields_sent')
+                    tok = 'canary-h%d' % n
+                    if honest.server.lost or honest.closed_by_bus:
+                        ctx.report('bystander-dropped', 'a message with a wrong-typed header field cost a THIRD connection its '
+                                   'link to the bus', {'bytes': raw}, {'kind': 'wrong-typed-header'})
+                        return
+                    honest.call('Canary', 's', [tok], destination=victim.unique, path='/c', interface='c.d')
+                    got = victim.take()
+                    w = {'field': names[code], 'sent_as': vsig, 'value': repr(val), 'type': mtype, 'bytes': raw}
+                    case = {'kind': 'wrong-typed-header', 'field': code, 'vsig': vsig}
+                    if not any(m.body == [tok] for m in got if not m.malformed):
+                        ctx.report('bystander-stalled', 'after a message whose %s header field was sent as %r, the addressee no '
+                                   'longer receives an honest message' % (names[code], vsig), w, case)
+                        return
+                    for m in got:
+                        if m.body == [tok]:
+                            continue
+                        ctx.count('wrong_typed_header_fields_passed_on')
+                        try:
+                            MSG.parseMessage(m.raw, [])
+                        except Exception as e:
+                            w['addressee_error'] = repr(e)
+                            w['forwarded'] = m.raw
+                            ctx.report('malformed-forwarded-header-type', 'a message whose %s header field was sent as %r '
+                                       '(value %r) was passed on by the bus in a form the addressee cannot decode (%r): the '
+                                       'addressee, not the sender, pays' % (names[code], vsig, val, e), w, case)
+                            return
+                    if victim.server.lost or victim.closed_by_bus or victim.server.crashes:
+                        ctx.report('bystander-dropped', 'a message with a wrong-typed %s header field cost ANOTHER connection '
+                                   'its link to the bus' % names[code], w, case)
+                        return
+
+
 def typed_corpus():
     """Small valid messages that between them send every type code through its decoder, also as array element, dict
     value and variant content, in both byte orders: single-byte damage to a length or a count is then tried on every
@@ -839,10 +917,17 @@ def typed_corpus():
               ('aay', [[[1, 2], [], [3]]]), ('a(yx)', [[[1, 2], [3, 4]]]), ('ad', [[1.5, -2.0]]), ('ab', [[True, False]]),
               ('(s(ig)v)', [['x', [1, 'i'], Variant('(ii)', [1, 2])]]), ('nqiuxt', [-1, 2, -3, 4, -5, 6]),
               ('aau', [[[1], [2, 3]]]), ('a{oa{sv}}', [[('/p', [('k', Variant('b', True))])]])]
+    # descriptor indices (type h) in every container position; decoded, as on a connection that holds no pending
+    # descriptor, against an empty list
+    bodies_h = [('ah', [[0, 1]], 2), ('a(yh)', [[[1, 0], [2, 1]]], 2), ('a{yh}', [[(1, 0), (2, 1)]], 2), ('hsh', [0, 'x', 1], 2),
+                ('v', [Variant('ah', [0])], 1), ('aah', [[[0], [], [1]]], 2)]
     out = []
-    for sig, body in bodies:
+    for sig, body, nfd in [b + (0,) for b in bodies] + bodies_h:
         for little in (True, False):
-            raw = RM.build(RM.SIGNAL, 7, {'path': '/a', 'member': 'M', 'interface': 'a.b'}, sig, body, little)
+            f = {'path': '/a', 'member': 'M', 'interface': 'a.b'}
+            if nfd:
+                f['unix_fds'] = nfd
+            raw = RM.build(RM.SIGNAL, 7, f, sig, body, little)
             blen = len(R.encode(sig, body, 0, little))
             out.append((raw, len(raw) - blen))
     return out
